@@ -42,3 +42,18 @@ PROPS["C02"] = {
         {"name": "fp-w64-381", "world": "W64-381", "src": "props/C02_fp.c", "tiers": ("thorough",)},
     ],
 }
+
+PROPS["C09"] = {
+    "level": "model_checking",
+    "technique": "explicit-state enumeration of complete small operand spaces (every signed pair in a square, every n < 2^16 / 2^17 for primality, every scalar < 2^16 x every window width for recodings) of the real bn_* number-theoretic code in the 8-bit-digit and shipped builds, against GMP",
+    "level_text": "Every signed pair in [-G, G]^2 through gcd (Euclid, Lehmer, binary), extended gcd with the Bezout identity, lcm, inverse, Jacobi/Legendre and reduction (all algorithms incl. Montgomery conversion and pseudo-Mersenne); "
+                  "every (a, e, m) with a, m < 40/64 and |e| < 128 through every exponentiation algorithm; every n below 2^16 (8-bit digits) / 2^17-2^20 (64-bit) plus every base-2 Fermat pseudoprime below 2^22-2^26, prime squares, close-prime products and Chernick numbers through every primality test; "
+                  "every k < 2^16 x every width 2..8 through every recoding with digit-set, sparsity, length and guard-byte checks (tau-NAF evaluated in Z[tau] and checked modulo (tau^m-1)/(tau-1)). 8-bit digits make Lehmer fallbacks and carry paths frequent.",
+    "level_note": "Trusted: GMP (gcdext, powm, jacobi, sqrt, probab_prime_p with 40 rounds as the primality reference). bn_rec_rtnaf, bn_rec_glv, bn_rec_frb/sac are decided through the scalar multiplications that use them (C16, C03, C11) because their contracts are relative to curve data. bn_gcd_ext_mid and bn_mxp_crt are covered only through their callers.",
+    "rule": "cases are (function group, operands) from odometers over duplicate-free ranges/alphabets; every case is non-trivial except none (all counted); distinct by 64-bit hash; transitions = individual function results compared with GMP.",
+    "assumptions": ["GMP is the reference", "the deterministic RNG seed makes probabilistic primality tests a function of the input"],
+    "jobs": [
+        {"name": "nt-w8", "world": "W8", "src": "props/C09_nt.c", "share": 0.6},
+        {"name": "nt-w64", "world": "W64", "src": "props/C09_nt.c"},
+    ],
+}
